@@ -96,7 +96,7 @@ def find_event(variant, name, idx):
     return None
 
 
-def deps(variant, root, limit=400):
+def deps(variant, root, limit=400, events_out=None):
     """Transitive data dependencies of an expression: leaves, string literals, callee names (following the results of
     recorded calls back to their arguments)."""
     leaves, strs, callees = set(), set(), set()
@@ -157,6 +157,8 @@ def deps(variant, root, limit=400):
             callees.add(e.args[0])
             ev = find_event(variant, e.args[0], e.args[1])
             if ev is not None:
+                if events_out is not None:
+                    events_out.append(ev)
                 for a in ev.args:
                     push_val(a)
         else:
